@@ -124,6 +124,22 @@ def applyOp : Op → Ty → Slice → Res OpOut
     if n < lfo then .fault .panic else
     (applyOp op last ⟨s.addr + lfo, (s.bytes.take n).drop lfo⟩).bind fun o =>
       .ok ⟨o.ret, s.bytes.take lfo ++ o.bytes ++ s.bytes.drop n⟩
+  | .last op, .uenum tag vs, s =>
+    -- the unsized last field of the *current* variant, mapped from the enum's (floored) payload behind that variant's sized fields
+    (tag.readU s).bind fun t =>
+      let al := max tag.align (alignLL (dictLL vs))
+      let dOff := ceilMul tag.size al
+      match (vs.getD t []).getLast? with
+      | none => .ok ⟨.novariant, s.bytes⟩
+      | some lt =>
+        if lt.dict.sized.isSome then .ok ⟨.novariant, s.bytes⟩
+        else if s.len < dOff then .fault .panic
+        else
+          let n := floorMul (s.len - dOff) al
+          let lpos := lastPos ((dictLL vs).getD t []) 0
+          if n < lpos then .fault .panic else
+          (applyOp op lt ⟨s.addr + dOff + lpos, ((s.bytes.drop dOff).take n).drop lpos⟩).bind fun o =>
+            .ok ⟨o.ret, s.bytes.take (dOff + lpos) ++ o.bytes ++ s.bytes.drop (dOff + n)⟩
   | .fpush i, .flex it l, s =>
     let al := max l.align it.dict.align
     let n := floorMul s.len al
